@@ -56,6 +56,7 @@ func verifyFunc(prog *Prog, specs *Specs, fn *ssa.Function, fc *FuncContract, op
 		un.addFact("(> " + c + " 0)") // a captured variable's cell always exists
 		fr.env[fv] = Val{t: c, typ: fv.Type()}
 	}
+	un.ghostDefaults(fr, st)
 	if fn.Parent() != nil || (fc != nil && fc.Impl != "") {
 		un.selfRef = un.u.freshConst(fn.Name()+".self", "Int")
 		var binds []Val
@@ -125,12 +126,20 @@ func verifyFunc(prog *Prog, specs *Specs, fn *ssa.Function, fc *FuncContract, op
 			}
 			label := cl.Label
 			if label == "" {
-				label = fmt.Sprintf("ensures%d", n)
+				// unlabelled clauses are named by their text so that inserting a clause does not rename the others
+				label = fmt.Sprintf("ensures~%06x", hashStr(cl.Text)&0xffffff)
 			}
 			po := un.oblige(out, "post", fmt.Sprintf("%s/post:%s", funcKey(fn), label), cl.Props, t, fn.Pos(), cl.Text)
 			if len(curParts) > 1 {
 				po.Parts = curParts
 			}
+		}
+	}
+	// every return site must be reachable under the requires and the assumed contracts (vacuity guard per path)
+	if len(un.topRets) >= 2 {
+		for i, r := range un.topRets {
+			un.obls = append(un.obls, &Obl{Name: fmt.Sprintf("%s/cover:return%d-reachable", funcKey(fn), i+1), Kind: "cover", Guard: "true", Goal: r.st.guard,
+				NFacts: coverFacts, Fn: funcKey(fn), Cover: true, Text: "return site reachable: the contracts assumed along this path are consistent"})
 		}
 	}
 	un.frameObligations(fr, out)
@@ -242,6 +251,18 @@ func (un *Unit) smtForOpt(o *Obl, produceModels bool, dropQuant bool) string {
 		if f.At < o.NFacts {
 			if dropQuant && (strings.Contains(f.T, "(forall ") || strings.Contains(f.T, "(exists ")) {
 				continue
+			}
+			if o.Cover && f.FromObl {
+				continue // reachability is judged under the genuine assumptions only, not under checked assertions
+			}
+			if f.At == -1 && strings.Contains(f.T, "(g_at_") {
+				// definitional axiom of an accessor that the rest of the query never mentions: leaving it out is
+				// conservative (the function can always be interpreted accordingly) and keeps the query quantifier-free
+				name := f.T[strings.Index(f.T, "(g_at_")+1:]
+				name = name[:strings.IndexAny(name, " )")]
+				if !gatUsed(un, o, name) {
+					continue
+				}
 			}
 			sb.WriteString("(assert " + f.T + ")\n")
 		}
@@ -489,4 +510,55 @@ func (un *Unit) guardLockAtEntry(kind, q string) string {
 		}
 	}
 	return ""
+}
+
+
+// ghostDefaults: a ghost field with a declared default has that value at every key denoting an object that does not exist yet.
+func (un *Unit) ghostDefaults(fr *Frame, st *State) {
+	sc := &Scope{un: un, vars: map[string]SV{}, cur: st, old: st, pkg: un.pkgOf(fr.fn), fr: fr}
+	for _, name := range sortedKeys(un.specs.Ghosts) {
+		g := un.specs.Ghosts[name]
+		if !g.Field || g.Default == "" {
+			continue
+		}
+		_, vs, err := sc.resolveType(g.Sort)
+		if err != nil {
+			continue
+		}
+		ks := "Int"
+		if g.Type != "" {
+			if _, k2, err := sc.resolveType(g.Type); err == nil && k2 != "" {
+				ks = k2
+			}
+		}
+		comp := un.comp("G_"+name, arraySort(ks, vs), "ghost")
+		ref := "gd_k"
+		switch ks {
+		case "g_Iface":
+			ref = "(i_val gd_k)"
+		case "g_Slice":
+			ref = "(s_arr gd_k)"
+		case "Int":
+		default:
+			continue
+		}
+		def := g.Default
+		un.u.usesQuant = true
+		un.addFact(fmt.Sprintf("(forall ((gd_k %s)) (=> (>= %s %s) (= (select %s gd_k) %s)))", ks, ref, un.next(st), un.get(st, comp), def))
+	}
+}
+
+
+// gatUsed: does any hypothesis visible to o (other than the accessor's own axiom) or its goal mention the accessor?
+func gatUsed(un *Unit, o *Obl, name string) bool {
+	needle := "(" + name + " "
+	if strings.Contains(o.Goal, needle) || strings.Contains(o.Guard, needle) {
+		return true
+	}
+	for _, f := range un.facts {
+		if f.At < o.NFacts && f.At != -1 && strings.Contains(f.T, needle) {
+			return true
+		}
+	}
+	return false
 }
